@@ -45,6 +45,11 @@ def run (j : Json) : Json :=
   | "col_int" =>
     let c := fldInt j "j"
     obj [("L", toJson (r.columnInt c)), ("S", optJ (dense.mapM (fun row => Py.index row c)))]
+  | "col_range" =>
+    let sel := parseRowSel (fld j "rsel")
+    let a := jOptInt (fld j "a"); let b := jOptInt (fld j "b"); let st := (jOptInt (fld j "s")).getD 1
+    obj [("L", optRowsJ ((r.colRange sel a b st).bind RL2.toRows)),
+         ("S", optRowsJ ((Py.selectRows dense sel).map (fun rows => rows.map (fun row => Py.slice row a b st))))]
   | "sum" => obj [("L", toJson r.rowSums), ("S", toJson (dense.map List.sum))]
   | "max" => obj [("L", toJson (r.rowReduce (fun l => l.foldl max (l.headD 0)))), ("S", toJson (dense.map (fun l => l.foldl max (l.headD 0))))]
   | "any" => obj [("L", toJson (r.rowReduce (fun l => l.any (· != 0)))), ("S", toJson (dense.map (fun l => l.any (· != 0))))]
